@@ -230,6 +230,12 @@ package goldilocks
 //@ def qe_addo(a, b) = tuple(qe_addo0(a[0], a[1], b[0], b[1]), qe_addo1(a[0], a[1], b[0], b[1]))
 //@ def qe_muladd(a, b, c) = tuple((a[0]*b[0] + 7*a[1]*b[1] + c[0]) % P, (a[0]*b[1] + a[1]*b[0] + c[1]) % P)
 //@ def qe_submul(a, b, c) = tuple(((a[0]-b[0])*c[0] + 7*(a[1]-b[1])*c[1]) % P, ((a[0]-b[0])*c[1] + (a[1]-b[1])*c[0]) % P)
+//@ opaque def qe_muladdo0(a0, a1, b0, b1, c0, c1) = (a0*b0 + 7*a1*b1 + c0) % P
+//@ opaque def qe_muladdo1(a0, a1, b0, b1, c0, c1) = (a0*b1 + a1*b0 + c1) % P
+//@ def qe_muladdo(a, b, c) = tuple(qe_muladdo0(a[0], a[1], b[0], b[1], c[0], c[1]), qe_muladdo1(a[0], a[1], b[0], b[1], c[0], c[1]))
+//@ opaque def qe_submulo0(a0, a1, b0, b1, c0, c1) = ((a0-b0)*c0 + 7*(a1-b1)*c1) % P
+//@ opaque def qe_submulo1(a0, a1, b0, b1, c0, c1) = ((a0-b0)*c1 + (a1-b1)*c0) % P
+//@ def qe_submulo(a, b, c) = tuple(qe_submulo0(a[0], a[1], b[0], b[1], c[0], c[1]), qe_submulo1(a[0], a[1], b[0], b[1], c[0], c[1]))
 //@ def qe_smul(a, s) = tuple((a[0]*s) % P, (a[1]*s) % P)
 //@ def qe_raw_mul(a, b) = tuple(a[0]*b[0] + 7*a[1]*b[1], a[0]*b[1] + a[1]*b[0])
 //@ def dv(x) = x / P
@@ -285,8 +291,10 @@ package goldilocks
 //@   circuit
 //@   requires chipok(p) && canonQE(b) && canonQE(c)
 //@   requires 0 <= a[0].Limb && a[0].Limb <= P*P && 0 <= a[1].Limb && a[1].Limb <= P*P
+//@   reveal qe_muladdo0 qe_muladdo1
 //@   ensures canonQE(res)
 //@   ensures res == qe_muladd(a, b, c)
+//@   ensures res == qe_muladdo(a, b, c)
 
 //@ func (p *Chip) MulAddExtensionNoReduce(a QuadraticExtensionVariable, b QuadraticExtensionVariable, c QuadraticExtensionVariable) (res QuadraticExtensionVariable)
 //@   props C05 C08
@@ -299,8 +307,10 @@ package goldilocks
 //@   props C05 C08
 //@   circuit
 //@   requires chipok(p) && canonQE(a) && canonQE(b) && canonQE(c)
+//@   reveal qe_submulo0 qe_submulo1
 //@   ensures canonQE(res)
 //@   ensures res == qe_submul(a, b, c)
+//@   ensures res == qe_submulo(a, b, c)
 
 //@ func (p *Chip) ScalarMulExtension(a QuadraticExtensionVariable, b Variable) (res QuadraticExtensionVariable)
 //@   props C05 C08
@@ -363,6 +373,18 @@ package goldilocks
 // Number theory, assumed (listed in the evidence); with it hasInv is always 1 for an accepted argument.
 //@ axiom qe_norm_nonzero(a0, a1) = implies(0 <= a0 && a0 < P && 0 <= a1 && a1 < P && !(a0 == 0 && a1 == 0), (a0*a0 + 7*((a1 * (P - 1)) % P)*a1) % P != 0)
 
+// The inverse and the quotient in GF(p^2) as (uninterpreted) functions: qe_inv(a) is "the b with a*b = 1",
+// qe_div(a, b) "the c with b*c = a".  The two axioms say that such a b / c is unique - a fact of the field
+// GF(p)[X]/(X^2-7) (7 is a non-residue), assumed, not proved here.
+//@ opaque def qe_inv0(a0, a1) = 0
+//@ opaque def qe_inv1(a0, a1) = 0
+//@ def qe_inv(a) = tuple(qe_inv0(a[0], a[1]), qe_inv1(a[0], a[1]))
+//@ opaque def qe_div0(a0, a1, b0, b1) = 0
+//@ opaque def qe_div1(a0, a1, b0, b1) = 0
+//@ def qe_div(a, b) = tuple(qe_div0(a[0], a[1], b[0], b[1]), qe_div1(a[0], a[1], b[0], b[1]))
+//@ axiom qe_inv_unique(a0, a1, b0, b1) = implies(0 <= a0 && a0 < P && 0 <= a1 && a1 < P && 0 <= b0 && b0 < P && 0 <= b1 && b1 < P && (a0*b0 + 7*a1*b1) % P == 1 && (a0*b1 + a1*b0) % P == 0, b0 == qe_inv0(a0, a1) && b1 == qe_inv1(a0, a1))
+//@ axiom qe_div_unique(a0, a1, b0, b1, c0, c1) = implies(0 <= a0 && a0 < P && 0 <= a1 && a1 < P && 0 <= b0 && b0 < P && 0 <= b1 && b1 < P && 0 <= c0 && c0 < P && 0 <= c1 && c1 < P && !(b0 == 0 && b1 == 0) && (b0*c0 + 7*b1*c1) % P == a0 && (b0*c1 + b1*c0) % P == a1, c0 == qe_div0(a0, a1, b0, b1) && c1 == qe_div1(a0, a1, b0, b1))
+
 //@ func (p *Chip) InverseExtension(a QuadraticExtensionVariable) (res QuadraticExtensionVariable, hasInv frontend.Variable)
 //@   props C05 C08
 //@   circuit
@@ -376,6 +398,8 @@ package goldilocks
 //@   assert implies(hasInv == 1, a[0]*res[0] + 7*a[1]*res[1] == 1 + P*(dv(aPowRInv*aPowR[0]) + aPowRInv*dv(a[0]*a[0] + 7*aPowRMinus1[1]*a[1]) - a[0]*dv(a[0]*aPowRInv) - 7*a[1]*dv(aPowRMinus1[1]*aPowRInv)))
 //@   assert a[0]*res[1] + a[1]*res[0] == P*(a[0]*aPowRInv*(a[1] - dv(a[1]*(P-1))) - a[0]*dv(aPowRMinus1[1]*aPowRInv) - a[1]*dv(a[0]*aPowRInv))
 //@   ensures implies(hasInv == 1, qe_mul(a, res) == tuple(1, 0))
+//@   use_at_return qe_inv_unique(a[0].Limb, a[1].Limb, res[0].Limb, res[1].Limb)
+//@   ensures res == qe_inv(a)
 
 //@ func (p *Chip) DivExtension(a QuadraticExtensionVariable, b QuadraticExtensionVariable) (res QuadraticExtensionVariable, hasInv frontend.Variable)
 //@   props C05 C08
@@ -389,6 +413,8 @@ package goldilocks
 //@   assert implies(hasInv == 1, b[0]*res[0] + 7*b[1]*res[1] == a[0] + P*(a[0]*dv(b[0]*bInv[0] + 7*b[1]*bInv[1]) + 7*a[1]*dv(b[0]*bInv[1] + b[1]*bInv[0]) - b[0]*dv(a[0]*bInv[0] + 7*a[1]*bInv[1]) - 7*b[1]*dv(a[0]*bInv[1] + a[1]*bInv[0])))
 //@   assert implies(hasInv == 1, b[0]*res[1] + b[1]*res[0] == a[1] + P*(a[0]*dv(b[0]*bInv[1] + b[1]*bInv[0]) + a[1]*dv(b[0]*bInv[0] + 7*b[1]*bInv[1]) - b[0]*dv(a[0]*bInv[1] + a[1]*bInv[0]) - b[1]*dv(a[0]*bInv[0] + 7*a[1]*bInv[1])))
 //@   ensures implies(hasInv == 1, qe_mul(b, res) == tuple(a[0].Limb, a[1].Limb))
+//@   use_at_return qe_div_unique(a[0].Limb, a[1].Limb, b[0].Limb, b[1].Limb, res[0].Limb, res[1].Limb)
+//@   ensures res == qe_div(a, b)
 
 // Horner evaluation from the last term: h(n) = 0, h(i) = h(i+1) * s + t[i]   (plonky2 reduce_with_powers)
 //@ recdef qe_horner(t []QE, s QE, i int) QE = ite(i >= len(t), tuple(0, 0), qe_muladd(qe_horner(t, s, i + 1), s, t[i]))
